@@ -238,6 +238,25 @@ def hardware(rng, decl, einsums, mapping, buffers_p=0.5, merger_p=0.3):
                 b += "  - component: Mrg\n    bindings:\n    - tensor: %s\n      init-ranks: [%s]\n      final-ranks: [%s]\n" % (
                     t, ", ".join(init), ", ".join(final))
                 meta["mergers"] += 1
+        # merger on a PARTITIONED input: init-ranks are the tensor's ranks after partitioning (storage order, levels in
+        # place), final-ranks the loop-concordant order
+        if e["levels"] and rng.random() < merger_p:
+            dirs = (mapping.get("partitioning") or {}).get(o, {})
+            static = set(r for r in e["levels"] if all("occupancy" not in d for d in dirs.get(r, ["occupancy"])))
+            # only statically (shape) partitioned ranks: the whole tensor exists in its partitioned form before the loops
+            ins = [(t, rs) for term in e["terms"] for t, rs in term
+                   if len(rs) >= 2 and any(r in static for r in rs) and all(r in static or r not in e["levels"] for r in rs)]
+            if ins:
+                t, rs = rng.choice(ins)
+                init = []
+                for r in mapping["rank-order"].get(t, decl[t]):
+                    init.extend(e["levels"].get(r, [r]))
+                final = [x for x in e["loop"] if x in init]
+                if sorted(final) == sorted(init) and init != final:
+                    b += "  - component: Mrg\n    bindings:\n    - tensor: %s\n      init-ranks: [%s]\n      final-ranks: [%s]\n" % (
+                        t, ", ".join(init), ", ".join(final))
+                    meta["mergers"] += 1
+                    meta["partitioned_mergers"] = meta.get("partitioned_mergers", 0) + 1
         # buffers: DRAM and an (optionally evicting, lazy or eager) buffet for one or two tensors.  A format names the
         # tensor's ranks as THIS Einsum's loop nest names them (partition levels), so a tensor gets one only if every
         # Einsum using it names its ranks identically; an output otherwise gets a format over its declared ranks.
